@@ -746,11 +746,13 @@ func (t *Tree) Compile(file string, args []string, out io.Writer) (err error) {
 					properties[i].s = set.NewSet()
 				}
 				for i, element := range n.Iterator2() {
-					consumes, properties[i].s = optimizeAlternates(element)
+					var c bool
+					c, properties[i].s = optimizeAlternates(element)
+					consumes = consumes && c
 					s = s.Union(properties[i].s)
 				}
 
-				if firstPass {
+				if firstPass || !consumes {
 					break
 				}
 
